@@ -127,19 +127,16 @@ def factories(F, S):
         if len(c) != 1:
             raise AnalysisBroken("%s not unique" % q)
         c = c[0]
-        r = returns(c)
         nfields = len(F.record(rec)["fields"])
-        ninit = None
-        for x in c.subtree(r[0]["value"]):
-            if c.n(x)["k"] == "InitListExpr" and c.n(x).get("rec") == rec:
-                ninit = len([k for k in c.kids(x)])
-                implicit = [k for k in c.kids(x) if c.n(k)["k"] == "ImplicitValueInitExpr"]
-                ninit -= len(implicit)
+        from ..rules_init import returned_record_complete
+        verdict, detail = returned_record_complete(F, S, c, rec)
         inst = "%s#all-fields" % q
-        if ninit == nfields:
-            out.append(ok("R-INIT", inst, c.loc(r[0]["id"]), c.qn, "the aggregate names a value for each of the %d fields" % nfields, "%d initialisers" % ninit))
+        if verdict is None:
+            raise AnalysisBroken("%s: %s" % (q, detail))
+        if verdict:
+            out.append(ok("R-INIT", inst, c.loc(c.body), c.qn, "the header returned has a value named for each of the %d fields" % nfields, detail))
         else:
-            out.append(bad("R-INIT", inst, c.loc(c.body), c.qn, "the aggregate names a value for each of the %d fields" % nfields, "%s explicit initialisers" % ninit))
+            out.append(bad("R-INIT", inst, c.loc(c.body), c.qn, "the header returned has a value named for each of the %d fields" % nfields, detail))
     return out
 
 
